@@ -16,7 +16,7 @@ Theorem C16_somigliana_equator_pole : forall a f GM w, 0 < a -> 1/1000000 <= f <
 Proof.
   intros a f GM w Ha Hf HG Hm. assert (D : dom a f GM) by (unfold dom; tauto).
   exists (gE a f GM w), (gP a f GM w). destruct (gamma_pole a f GM w D Hm) as [Q1 Q2].
-  rewrite !g_closed, !g0_closed, (gamma_equator a f GM w D), Q1, Q2 by exact D.
+  rewrite !g_closed, !g0_closed, (gamma_equator a f GM w D), Q1, Q2 by assumption.
   repeat split. - apply ge_closed; exact D. - apply gp_closed; exact D.
 Qed.
 Print Assumptions C16_somigliana_equator_pole.
@@ -27,7 +27,7 @@ Theorem C16_decreasing_with_height : forall a f GM w lat h1 h2, 0 < a -> 1/10000
   exists g1 g2, C16_g_R a f GM w lat h1 = Val [g1] /\ C16_g_R a f GM w lat h2 = Val [g2] /\ g2 < g1.
 Proof.
   intros a f GM w lat h1 h2 Ha Hf HG Hm H1 H12 H2. assert (D : dom a f GM) by (unfold dom; tauto).
-  exists (gamma a f GM w lat h1), (gamma a f GM w lat h2). rewrite !g_closed by exact D.
+  exists (gamma a f GM w lat h1), (gamma a f GM w lat h2). rewrite !g_closed by assumption.
   repeat split. apply gamma_decreasing; assumption.
 Qed.
 Print Assumptions C16_decreasing_with_height.
